@@ -90,7 +90,7 @@ CHECKS = {
             "checked-in files.",
             "DESIGN.md section 5, C18", TRUST + " Hook: cfg(unic_locale_verif) read-only re-export."),
     "C01": ("panic / CPU-time / exit-status monitor over every text-accepting entry point; Miri + AddressSanitizer in the thorough tier",
-            "21 groups of public entry points (both parsers by bytes/str/canonicalize, the four subtag types, ExtensionsMap, every extension getter/setter with the "
+            "22 groups of public entry points (both parsers by bytes/str/canonicalize, the doc-hidden iterator entry points try_from_iter / parse_language_identifier_from_iter under four tokenisations, the four subtag types, ExtensionsMap, every extension getter/setter with the "
             "input as key, value, attribute or tag, serde deserialisation, and to_string/direction/maximize/minimize on every parsed value) are called under "
             "catch_unwind with a recording panic hook; a watchdog thread decides 'hang' on the worker thread's CPU time inside one case (> 20 CPU-s), the driver "
             "observes aborts / stack overflows as the worker's exit status. Inputs: bounded-exhaustive token sequences, random/mutated/corpus strings, non-UTF-8, NUL, "
